@@ -14,7 +14,8 @@ LEVEL = 'exploration'
 RULE = ('cases: (a) complete grid exponent 0..255 x boundary mantissas (+random mantissas), with and without sign bit: '
         'decode/encode vs Core SetCompact/GetCompact; (b) integers of every bit length 0..256 (2^k, 2^k-1, 2^k+1, top-byte '
         'patterns, random): canonical encoding, truncation law, idempotence; (c) (hash, nBits, chain) triples with hash at '
-        'target-1/target/target+1/limit/limit+1/random: CheckProofOfWork accepts iff reference predicate. '
+        'target-1/target/target+1/limit/limit+1/random: CheckProofOfWork accepts iff reference predicate; (d) the same '
+        '(hash, nBits) under sequences of 2..6 chain selections (all 24 orders of the four chains for 3 targets). '
         'non-trivial = exponent not in {0x1d,0x20} or sign bit set or hash within 1 of target; distinct by case digest')
 ASSUMPTIONS = ['reference = transcription of Core arith_uint256::SetCompact/GetCompact, pinned by Core unit-test vectors',
                'chain limits taken from an independent table (2^224-1 main/test/signet, 2^255-1 regtest)']
@@ -85,6 +86,22 @@ def check_case(case):
                     'cls': ['pow-accept' if exp else 'pow-reject', 'chain-' + chain]}
         finally:
             libx.select('mainnet')
+    if k == 'powseq':
+        # the same (hash, nBits) judged under a SEQUENCE of chain selections: the verdict may only depend on the chain selected now
+        cls = []
+        try:
+            for chain, h, c in case['steps']:
+                libx.select(chain)
+                exp = RC.pow_ok(h, c, RC.CHAINS[chain]['limit'])
+                r = libx.call('pow', CheckProofOfWork, h.to_bytes(32, 'little'), c, allowed=(ValidationError,))
+                if (r[0] == 'ok') != exp:
+                    raise Violation('powseq/%s' % ('accepts-invalid' if r[0] == 'ok' else 'rejects-valid'),
+                                    'after selecting %s: CheckProofOfWork(hash=%#x, nBits=0x%08x) library %s, reference %s; history %s' % (
+                                        chain, h, c, r[0] == 'ok', exp, [s_[0] for s_ in case['steps']]))
+                cls.append('powseq-' + ('accept' if exp else 'reject'))
+        finally:
+            libx.select('mainnet')
+        return {'nt': len({s_[0] for s_ in case['steps']}) >= 2, 'cls': cls, 'evals': len(case['steps'])}
     raise AssertionError(k)
 
 
@@ -143,8 +160,24 @@ def s_random(draw):
     return {'kind': 'pow', 'chain': chain, 'hash': min(h, (1 << 256) - 1), 'c': c}
 
 
+@st.composite
+def s_powseq(draw):
+    c = draw(st.sampled_from([0x207fffff, 0x1e00ffff, 0x1d010000, 0x1d00ffff, 0x1c7fffff, 0x2000ffff, 0x1f00ffff, 0x1e7fffff])) \
+        if draw(st.booleans()) else (draw(st.integers(0x1b, 0x21)) << 24 | draw(st.sampled_from(MANTS)))
+    v = RC.set_compact(c)[0]
+    h = min(draw(st.sampled_from([0, max(v - 1, 0), v, v + 1])), 2 ** 256 - 1)
+    chains = draw(st.lists(st.sampled_from(libx.CHAINS), min_size=2, max_size=6))
+    return {'kind': 'powseq', 'steps': [[ch, h, c] for ch in chains]}
+
+
 def t_random(ctx):
-    ctx.hyp(s_random(), ctx.n(2500, 40000))
+    ctx.hyp(st.one_of(s_random(), s_random(), s_powseq()), ctx.n(2500, 40000))
+    if ctx.shard == 0:
+        import itertools
+        for c in (0x207fffff, 0x1e00ffff, 0x1d00ffff):
+            for order in itertools.permutations(libx.CHAINS):
+                ctx.run({'kind': 'powseq', 'steps': [[ch, 0, c] for ch in order]})
+        ctx.exhaustive.append('3 targets x all 24 orders of the four chains (chain-switch histories)')
 
 
 TASKS = [('grid', (t_grid, 4)), ('pow_grid', (t_pow_grid, 4)), ('random', (t_random, 8))]
